@@ -189,8 +189,9 @@ pub struct PackCase {
     pub pat: Pattern,
     /// random byte string for the unpack direction
     pub bytes_seed: u64,
-    /// plant extreme field values at these positions of the byte-string direction
-    pub plants: Vec<(u8, bool)>,
+    /// plant raw field values at these positions of the byte-string direction:
+    /// kind % 4 = 0: 0, 1: a+b (largest legal), 2: a+b+1 (smallest illegal, if it fits), 3: all ones
+    pub plants: Vec<(u8, u8)>,
 }
 
 /// (a, b, used by unpack?) for every (a, b) the crate passes to bit_pack / bit_unpack
@@ -206,7 +207,7 @@ const RANGES: [(i64, i64, bool); 8] = [
 ];
 
 fn pack_strategy() -> impl Strategy<Value = PackCase> {
-    (0u8..8, gen::pattern(), any::<u64>(), proptest::collection::vec((any::<u8>(), any::<bool>()), 0..4))
+    (0u8..8, gen::pattern(), any::<u64>(), proptest::collection::vec((any::<u8>(), any::<u8>()), 0..4))
         .prop_map(|(range, pat, bytes_seed, plants)| PackCase { range, pat, bytes_seed, plants })
 }
 
@@ -246,11 +247,18 @@ pub fn check_pack(c: &PackCase, st: &mut Stats) -> CheckResult {
         // fields, so that single out-of-range fields among in-range ones occur
         let pow2 = ((a + b + 1) as u64).is_power_of_two();
         let mut v = if pow2 || c.bytes_seed % 4 == 0 { gen::prg_bytes(c.bytes_seed, "pack-bytes", 32 * bits) } else { out.clone() };
-        for (pos, high) in &c.plants {
-            // set field `pos` to all-ones (largest raw value) or all-zeros
+        for (pos, kind) in &c.plants {
             let f = *pos as usize;
-            for bit in f * bits..(f + 1) * bits {
-                if *high {
+            let all_ones = (1i64 << bits) - 1;
+            let val = match kind % 4 {
+                0 => 0,
+                1 => a + b,
+                2 => (a + b + 1).min(all_ones),
+                _ => all_ones,
+            };
+            for bi in 0..bits {
+                let bit = f * bits + bi;
+                if (val >> bi) & 1 == 1 {
                     v[bit / 8] |= 1 << (bit % 8);
                 } else {
                     v[bit / 8] &= !(1 << (bit % 8));
